@@ -61,7 +61,27 @@ def modU (a b : Nat) : Nat := a % b
 /-- `bitmap.Mask[k]` (github.com/openacid/low/bitmap): the low `k` bits set, `k ≤ 64` -/
 def mask64 (k : Nat) : Nat := 2 ^ k - 1
 
+/-- `bitmap.Bit[k]`: bit `k` set, `k < 64` -/
+def bit64 (k : Nat) : Nat := 2 ^ k
+
 /-- `bits.OnesCount64` -/
 def popcount64 (x : Nat) : Nat := ((List.range 64).filter (fun i => x.testBit i)).length
+
+/-! ### encoding/binary: fixed-width little / big endian (`PutUintN` panics on a short buffer) -/
+
+/-- `w` little-endian bytes of `n` (truncating) -/
+def leBytesNat : Nat → Nat → List Nat
+  | 0, _ => []
+  | w + 1, n => n % 256 :: leBytesNat w (n / 256)
+
+/-- little-endian value of a byte list -/
+def leValNat : List Nat → Nat
+  | [] => 0
+  | b :: bs => b + 256 * leValNat bs
+
+def putUintLittleEndian (w : Nat) (b : List Nat) (v : Nat) : List Nat := leBytesNat w v ++ b.drop w
+def uintLittleEndian (w : Nat) (s : List Nat) : Nat := leValNat (s.take w)
+def putUintBigEndian (w : Nat) (b : List Nat) (v : Nat) : List Nat := (leBytesNat w v).reverse ++ b.drop w
+def uintBigEndian (w : Nat) (s : List Nat) : Nat := leValNat (s.take w).reverse
 
 end Generated.Go
